@@ -435,8 +435,6 @@ def gen_case(rnd, tier='quick'):
         if rnd.random() < 0.6:
             from epydemic import PulseCoupledOscillator as PCO
             case['decoy'] = {PCO.PERIOD: rnd.choice([0.25, 3.0, 1.0]), PCO.B: rnd.choice([0.5, 1.0, 4.0]), PCO.COUPLING: rnd.choice([0.0, 1.0, 0.3])}
-    if rnd.random() < 0.25:
-        case['prerun'] = [rnd.randrange(0, 1 << 20) / float(1 << 20) for _ in range(n)]
     if rnd.random() < 0.12:
         # synchronised groups on a complete network with a period off the 1e-5 grid (F13)
         g = gen_graph(rnd, 'complete', 2, 5)
@@ -445,6 +443,8 @@ def gen_case(rnd, tier='quick'):
         case.update(graph=g, dynamics='stochastic', period=rnd.choice([0.123451234, 0.001003, 0.0300049, 0.700003]),
                     states=[rnd.choice(base) for _ in range(k)])
         case['maxtime'] = case['period'] * rnd.choice([2.5, 4.0])
+    if rnd.random() < 0.25:
+        case['prerun'] = [rnd.randrange(0, 1 << 20) / float(1 << 20) for _ in range(len(case['states']))]
     return case
 
 
